@@ -1,8 +1,389 @@
 package main
 
 import (
+	"encoding/json"
+	"flag"
 	"fmt"
-	"golang.org/x/tools/go/packages"
+	"os"
+	"path/filepath"
+	"regexp"
+	"sort"
+	"strconv"
+	"strings"
+	"sync"
+	"time"
 )
 
-func main() { fmt.Println(packages.LoadSyntax) }
+type oblOutcome struct {
+	Func   *FuncResult
+	Obl    *Obl
+	Res    SolveResult
+	Status string // discharged | failed | out-of-reach | vacuous | cover-ok
+	Query  string
+}
+
+func hasProp(props []string, p string) bool {
+	for _, x := range props {
+		if x == p {
+			return true
+		}
+	}
+	return false
+}
+
+func contractMentions(c *Contract, prop string) bool {
+	if hasProp(c.Props, prop) {
+		return true
+	}
+	for _, cl := range c.Requires {
+		if hasProp(cl.Props, prop) {
+			return true
+		}
+	}
+	for _, cl := range c.Ensures {
+		if hasProp(cl.Props, prop) {
+			return true
+		}
+	}
+	for _, l := range c.Loops {
+		for _, cl := range l.Invs {
+			if hasProp(cl.Props, prop) {
+				return true
+			}
+		}
+	}
+	return false
+}
+
+func main() {
+	if len(os.Args) < 2 {
+		fmt.Fprintln(os.Stderr, "usage: govc check|func|dump|list ...")
+		os.Exit(2)
+	}
+	cmd := os.Args[1]
+	fs := flag.NewFlagSet(cmd, flag.ExitOnError)
+	repo := fs.String("repo", "/repo", "repository under verification")
+	verif := fs.String("verif", "/verif", "verification directory")
+	prop := fs.String("p", "", "property id")
+	tier := fs.String("tier", os.Getenv("VERIF_TIER"), "quick|thorough")
+	fname := fs.String("f", "", "function (short name substring) for func/dump")
+	oname := fs.String("o", "", "obligation name substring for dump")
+	timeout := fs.Int("timeout", 0, "per-solver timeout in seconds")
+	workers := fs.Int("j", 8, "parallel obligations")
+	verbose := fs.Bool("v", false, "verbose")
+	fs.Parse(os.Args[2:])
+	if *tier == "" {
+		*tier = "quick"
+	}
+	start := time.Now()
+	p, err := loadProgram(*repo, *verif)
+	if err != nil {
+		fmt.Fprintln(os.Stderr, "govc: load failed:", err)
+		// a tree that does not load cannot be verified: this is a broken check, not a violation
+		os.Exit(3)
+	}
+	p.loadSeconds = time.Since(start).Seconds()
+	to := *timeout
+	if to == 0 {
+		to = 10
+		if *tier == "thorough" {
+			to = 60
+		}
+	}
+	switch cmd {
+	case "list":
+		for _, n := range sortedKeys(p.contracts) {
+			c := p.contracts[n]
+			fmt.Printf("%-70s props=%v\n", c.Short, c.Props)
+		}
+		for _, l := range p.lemmas {
+			fmt.Printf("lemma %-64s props=%v\n", l.Short, l.Props)
+		}
+	case "func", "dump":
+		var results []*FuncResult
+		for _, n := range sortedKeys(p.contracts) {
+			c := p.contracts[n]
+			if strings.Contains(shortFuncName(p.funcs[c.Func]), *fname) {
+				results = append(results, p.verifyFunc(c))
+			}
+		}
+		for _, l := range p.lemmas {
+			if strings.Contains("lemma."+l.Short, *fname) {
+				results = append(results, p.verifyLemma(l))
+			}
+		}
+		if len(results) == 0 {
+			fmt.Fprintln(os.Stderr, "no function under contract matches", *fname)
+			os.Exit(2)
+		}
+		if cmd == "dump" {
+			for _, r := range results {
+				for _, o := range r.Obls {
+					if strings.Contains(o.Name, *oname) {
+						fmt.Println(p.assembleQuery(r, o, true))
+						return
+					}
+				}
+			}
+			fmt.Fprintln(os.Stderr, "no obligation matches", *oname)
+			os.Exit(2)
+		}
+		sv := newSolver(filepath.Join(*verif, ".cache", "dev"), to, *tier == "thorough")
+		outs := runObligations(p, sv, results, "", *workers)
+		bad := 0
+		for _, o := range outs {
+			mark := "ok  "
+			if o.Status != "discharged" && o.Status != "cover-ok" {
+				mark = "FAIL"
+				bad++
+			}
+			fmt.Printf("%s %-90s %-12s %s %.2fs\n", mark, o.Obl.Name, o.Status, o.Res.Solver, o.Res.Seconds)
+			if *verbose && mark == "FAIL" {
+				fmt.Println("     src:", o.Obl.Src)
+				fmt.Println("     out:", truncate(strings.ReplaceAll(o.Res.Output, "\n", " | "), 1500))
+			}
+		}
+		for _, r := range results {
+			for _, u := range r.Unsupported {
+				fmt.Println("UNSUPPORTED", r.Name, u)
+			}
+		}
+		fmt.Printf("%d obligations, %d failed, %.1fs\n", len(outs), bad, time.Since(start).Seconds())
+		if bad > 0 {
+			os.Exit(1)
+		}
+	case "check":
+		if *prop == "" {
+			fmt.Fprintln(os.Stderr, "check needs -p <property>")
+			os.Exit(2)
+		}
+		os.Exit(checkProperty(p, *prop, *tier, to, *workers, start))
+	default:
+		fmt.Fprintln(os.Stderr, "unknown command", cmd)
+		os.Exit(2)
+	}
+}
+
+func runObligations(p *Program, sv *Solver, results []*FuncResult, prop string, workers int) []*oblOutcome {
+	var outs []*oblOutcome
+	for _, r := range results {
+		for _, o := range r.Obls {
+			if prop != "" && !hasProp(o.Props, prop) {
+				continue
+			}
+			outs = append(outs, &oblOutcome{Func: r, Obl: o})
+		}
+	}
+	var wg sync.WaitGroup
+	ch := make(chan *oblOutcome)
+	for i := 0; i < workers; i++ {
+		wg.Add(1)
+		go func() {
+			defer wg.Done()
+			for oc := range ch {
+				if len(oc.Func.Unsupported) > 0 && !oc.Obl.Cover {
+					oc.Status = "out-of-reach"
+					oc.Res = SolveResult{Status: "unsupported", Output: strings.Join(oc.Func.Unsupported, "\n")}
+					continue
+				}
+				if oc.Obl.Goal.S == "true" && !oc.Obl.Cover {
+					oc.Status = "discharged"
+					oc.Res = SolveResult{Status: "unsat", Solver: "syntactic"}
+					continue
+				}
+				q := p.assembleQuery(oc.Func, oc.Obl, true)
+				oc.Res = sv.solve(oc.Obl.Name, q, oc.Obl.Cover)
+				switch {
+				case oc.Obl.Cover && oc.Res.Status == "unsat":
+					oc.Status = "vacuous"
+				case oc.Obl.Cover:
+					oc.Status = "cover-ok"
+				case oc.Res.Status == "unsat":
+					oc.Status = "discharged"
+				default:
+					oc.Status = "failed"
+				}
+			}
+		}()
+	}
+	for _, oc := range outs {
+		ch <- oc
+	}
+	close(ch)
+	wg.Wait()
+	return outs
+}
+
+type finding struct {
+	kind, prop, obligation, text string
+}
+
+func readFindings(path string) []finding {
+	b, err := os.ReadFile(path)
+	if err != nil {
+		return nil
+	}
+	var out []finding
+	re := regexp.MustCompile(`^(finding|fixed):\s+property=(\S+)\s+(?:obligation=(\S+)\s+)?(.*)$`)
+	for _, l := range strings.Split(string(b), "\n") {
+		l = strings.TrimSpace(l)
+		if m := re.FindStringSubmatch(l); m != nil {
+			out = append(out, finding{m[1], m[2], m[3], m[4]})
+		}
+	}
+	return out
+}
+
+func checkProperty(p *Program, prop, tier string, timeoutS, workers int, start time.Time) int {
+	seed, _ := strconv.Atoi(os.Getenv("VERIF_SEED"))
+	var results []*FuncResult
+	funcsUnder := []string{}
+	for _, n := range sortedKeys(p.contracts) {
+		c := p.contracts[n]
+		if contractMentions(c, prop) {
+			r := p.verifyFunc(c)
+			results = append(results, r)
+			tag := ""
+			if c.Trusted {
+				tag = " (trusted: contract assumed)"
+			}
+			funcsUnder = append(funcsUnder, r.Name+tag)
+		}
+	}
+	for _, l := range p.lemmas {
+		if contractMentions(l, prop) {
+			results = append(results, p.verifyLemma(l))
+		}
+	}
+	runDir := filepath.Join(p.verif, ".cache", "run-"+prop)
+	os.RemoveAll(runDir)
+	sv := newSolver(runDir, timeoutS, tier == "thorough")
+	if tier != "thorough" && os.Getenv("GOVC_CACHE") == "1" {
+		sv.useCache = true
+		sv.cacheDir = filepath.Join(p.verif, ".cache", "results")
+	}
+	outs := runObligations(p, sv, results, prop, workers)
+	findings := readFindings(filepath.Join(p.verif, "known_findings.txt"))
+	replayDir := filepath.Join(p.verif, "replays", prop)
+	os.RemoveAll(replayDir)
+	nObl, nDis, nCover, nVac := 0, 0, 0, 0
+	var violations, known []string
+	var samples []map[string]interface{}
+	type slow struct {
+		name string
+		s    float64
+	}
+	var slows []slow
+	trusted := map[string]bool{}
+	callees := map[string]bool{}
+	for _, r := range results {
+		for t := range r.Exec.trusted {
+			trusted[t] = true
+		}
+		for c := range r.Exec.usedContracts {
+			callees[c] = true
+		}
+	}
+	for _, oc := range outs {
+		if oc.Obl.Cover {
+			nCover++
+			if oc.Status == "vacuous" {
+				nVac++
+				violations = append(violations, reportFailure(p, prop, replayDir, oc, "vacuity guard failed: precondition or path condition unsatisfiable"))
+			}
+			continue
+		}
+		nObl++
+		slows = append(slows, slow{oc.Obl.Name, oc.Res.Seconds})
+		if oc.Status == "discharged" {
+			nDis++
+			if len(samples) < 4 {
+				samples = append(samples, map[string]interface{}{"obligation": oc.Obl.Name, "kind": oc.Obl.Kind, "clause": oc.Obl.Src, "goal_smt": truncate(oc.Obl.Goal.S, 400), "solver": oc.Res.Solver, "seconds": oc.Res.Seconds, "at": p.posString(oc.Obl.Pos)})
+			}
+			continue
+		}
+		isKnown := false
+		for _, f := range findings {
+			if f.kind == "finding" && f.prop == prop && f.obligation == oc.Obl.Name {
+				known = append(known, fmt.Sprintf("KNOWN-FINDING: property=%s obligation=%s %s", prop, oc.Obl.Name, f.text))
+				isKnown = true
+			}
+		}
+		if isKnown {
+			continue
+		}
+		violations = append(violations, reportFailure(p, prop, replayDir, oc, ""))
+	}
+	if nObl == 0 {
+		violations = append(violations, fmt.Sprintf("VIOLATION property=%s replay=%s no obligations generated (broken check) no-failing-input-found", prop, replayDir))
+	}
+	sort.Slice(slows, func(i, j int) bool { return slows[i].s > slows[j].s })
+	var slowest []string
+	for i := 0; i < len(slows) && i < 3; i++ {
+		slowest = append(slowest, fmt.Sprintf("%s %.2fs", slows[i].name, slows[i].s))
+	}
+	for _, k := range known {
+		fmt.Println(k)
+	}
+	for _, v := range violations {
+		fmt.Println(v)
+	}
+	wall := time.Since(start).Seconds()
+	level := "proof"
+	ev := map[string]interface{}{
+		"property_id": prop,
+		"tier":        tier,
+		"seed":        seed,
+		"level":       level,
+		"wall_s":      wall,
+		"violations":  len(violations),
+		"coverage": map[string]interface{}{
+			"obligations":              nObl,
+			"discharged":               nDis + len(known),
+			"discharged_outright":      nDis,
+			"checker_cmd":              fmt.Sprintf("/verif/bin/govc check -p %s -tier %s (VCs from go/ssa of /repo working tree; solvers z3-new 5.1.0, z3 4.8.12, cvc5 1.0.3; timeout %ds)", prop, tier, timeoutS),
+			"trusted_base":             sortedKeys(trusted),
+			"functions_under_contract": funcsUnder,
+			"callee_contracts_used":    sortedKeys(callees),
+			"by_backend":               sv.byBackend,
+			"solver_time_s":            sv.totalSec,
+			"slowest":                  slowest,
+			"vacuity":                  map[string]int{"cover_checks": nCover, "vacuous": nVac},
+			"known_findings":           known,
+			"contracts_source":         p.contractsSource,
+			"samples":                  samples,
+			"integers":                 "int64/uint64/uint32/int16/uint16 arithmetic: exact wrap-around; int (lengths, indices): mathematical; sdk.Int/sdk.Dec: unbounded mathematical integers (Dec scaled by 10^18)",
+			"load_s":                   p.loadSeconds,
+		},
+		"assumptions": sortedKeys(trusted),
+	}
+	os.MkdirAll(filepath.Join(p.verif, "evidence"), 0o755)
+	b, _ := json.MarshalIndent(ev, "", " ")
+	os.WriteFile(filepath.Join(p.verif, "evidence", prop+".json"), b, 0o644)
+	fmt.Printf("govc: property %s tier %s: %d obligations, %d discharged, %d known findings, %d violations, %d cover checks, %.1fs\n", prop, tier, nObl, nDis, len(known), len(violations), nCover, wall)
+	if len(violations) > 0 {
+		return 1
+	}
+	return 0
+}
+
+func reportFailure(p *Program, prop, replayDir string, oc *oblOutcome, note string) string {
+	os.MkdirAll(replayDir, 0o755)
+	file := filepath.Join(replayDir, sanitize(oc.Obl.Name)+".json")
+	rec := map[string]interface{}{
+		"property":      prop,
+		"obligation":    oc.Obl.Name,
+		"kind":          oc.Obl.Kind,
+		"clause":        oc.Obl.Src,
+		"at":            p.posString(oc.Obl.Pos),
+		"status":        oc.Status,
+		"solver":        oc.Res.Solver,
+		"solver_status": oc.Res.Status,
+		"solver_output": truncate(oc.Res.Output, 8000),
+		"note":          note,
+		"replayed":      false,
+	}
+	b, _ := json.MarshalIndent(rec, "", " ")
+	os.WriteFile(file, b, 0o644)
+	return fmt.Sprintf("VIOLATION property=%s replay=%s obligation=%s status=%s no-failing-input-found", prop, file, oc.Obl.Name, oc.Status)
+}
